@@ -222,12 +222,18 @@ func runC04(r *Run) error {
 		if hi%3 == 2 {
 			acType = "simple"
 		}
-		s, err := NewScen(6, typ, &ScenOpts{Writers: []int{0, 1}, ACType: acType})
+		// every fourth history on an open database (write list "*"): everybody may write, but an
+		// entry still has to be what its author signed
+		wild := hi%4 == 1
+		if wild {
+			r.Count("write-list:wildcard")
+		}
+		s, err := NewScen(6, typ, &ScenOpts{Writers: []int{0, 1}, Wildcard: wild, ACType: acType})
 		if err != nil {
 			return err
 		}
 		u := s.NewUniverse()
-		h := newHostile(r, s, u, []int{0, 1}, false)
+		h := newHostile(r, s, u, []int{0, 1}, wild)
 		// genuine history: a prefix replicated to victim 4, then a suffix
 		npre := 1 + r.Rng.Intn(3)
 		nsuf := 2 + r.Rng.Intn(3)
